@@ -75,7 +75,10 @@ theorem slice_arg_no_raw_overrun (t : SliceIn α) (i : Nat) (hi : i < t.dims.len
         simp only [hei, hn, if_true] at h
         cases hf : fillEnd d ((t.shape[i]?).getD 0) with
         | error x => simp [hf] at h; subst h; cases d <;> simp [fillEnd] at hf <;> (split at hf <;> simp at hf)
-        | ok v => simp [hf] at h
+        | ok v =>
+          simp only [hf] at h
+          repeat' (split at h)
+          all_goals (simp at h)
     | none =>
       have hn := hs (by simp [hsi])
       simp only [hsi, hn, if_true] at h
@@ -84,12 +87,18 @@ theorem slice_arg_no_raw_overrun (t : SliceIn α) (i : Nat) (hi : i < t.dims.len
       | ok v =>
         simp only [hf] at h
         cases hei : t.ends[i]? with
-        | some e => simp [hei] at h
+        | some e =>
+          simp only [hei] at h
+          repeat' (split at h)
+          all_goals (simp at h)
         | none =>
           simp only [hei, hn, if_true] at h
           cases hf2 : fillEnd d ((t.shape[i]?).getD 0) with
           | error x => simp [hf2] at h; subst h; cases d <;> simp [fillEnd] at hf2 <;> (split at hf2 <;> simp at hf2)
-          | ok v => simp [hf2] at h
+          | ok v =>
+            simp only [hf2] at h
+            repeat' (split at h)
+            all_goals (simp at h)
 
 theorem maximumExtents_length (dims : List (DimDesc α)) (shape : List Nat) (r : List (α × α)) (h : maximumExtents dims shape = .ok r) :
     r.length = dims.length := by
